@@ -4,10 +4,7 @@ PROP = {
     "bin": "c03",
     "coq_targets": ["theories/Isa/C03Check"],
     "n": {"quick": 1200, "thorough": 16000},
-    "theorems": ["run_graph_straight", "tie_transfers",
-                 "addsub_imm_sim", "addsub_shift_sim", "mov_reg_sim", "mov_wide_sim",
-                 "adds_imm_sim", "adds_shift_sim", "subs_imm_sim_partial", "subs_shift_sim_partial", "subs_carry_refuted", "ldr_imm_sim", "str_imm_sim", "ldst_ord_sim", "stp_sim", "ldp_sim", "ldst_imm_sim", "ldpsw_sim", "ldst_reg_sim",
-                 "b_sim", "bl_sim", "br_sim", "blr_sim", "ret_sim", "bcond_sim", "cb_sim", "tb_sim"],
+    "theorems": ["run_graph_straight", "tie_transfers", "addsub_imm_sim", "addsub_shift_sim", "mov_reg_sim", "mov_wide_sim", "adds_imm_sim", "adds_shift_sim", "subs_imm_sim_partial", "subs_shift_sim_partial", "subs_carry_refuted", "ldr_imm_sim", "str_imm_sim", "ldst_ord_sim", "stp_sim", "ldp_sim", "ldst_imm_sim", "ldpsw_sim", "ldst_reg_sim", "b_sim", "bl_sim", "br_sim", "blr_sim", "ret_sim", "bcond_sim", "cb_sim", "tb_sim", "addsub_shift_sim_all", "adds_shift_sim_all", "subs_shift_sim_all_partial", "addsub_ext_sim", "adds_ext_sim", "subs_ext_sim_partial", "decode_fields", "sim_all", "c03_end_to_end"],
     "tie_name": "mirror(decode word) = IL dumped by translator::aarch64 (syntactic tie) / dumped IL runs without getting stuck",
     "rule": "case i < 7034: entry (i * 7919 mod 7034) of the structured table of instruction words (add/sub immediate | shifted | extended register x W/X x "
             "with/without flags x register 31 in every field x boundary immediates and amounts; ORR/MOV, MOVZ/MOVN/MOVK; every (size, opc) load/store x "
